@@ -694,6 +694,53 @@ def task_C20(tier, seed, arg):
     return R.done()
 
 
+def task_identity(tier, seed, arg):
+    """atoms are compared, hashed and used as dictionary keys by identity: any two different atoms (other element, isotope,
+    charge or table) are unequal and stay two keys; an atom equals itself; formulas keep them apart"""
+    import itertools
+    import periodictable as pt
+    from periodictable import core, mass
+    from periodictable.formulas import formula
+    R = Result("all pairs of a pool of atoms (elements, isotopes, D/T, ions, isotope ions; public and a private table): ==, !=, hash "
+               "consistency, two dictionary keys, formula(dict) keeps both; bounded pool", False)
+    name = "stateful_identity_%d" % random.Random(seed).randrange(10 ** 9)
+    T = core.PeriodicTable(name)
+    try:
+        mass.init(T)
+        pool = nat.atom_pool() + [T.Fe, T.Fe[56], T.Fe.ion[2], T.Fe[56].ion[2], T.H, T.D, T.O.ion[-2]]
+        for el, isos, q in (("Li", (6, 7), 1), ("Ni", (58, 60), 2), ("O", (16, 18), -2)):
+            E = getattr(pt, el)
+            pool += [E[isos[0]].ion[q], E[isos[1]].ion[q], E.ion[q], E[isos[0]], E[isos[1]]]
+        seen = []
+        for a in pool:
+            if not any(a is b for b in seen):
+                seen.append(a)
+        for a, b in itertools.combinations(seen, 2):
+            R.ok(1, (type(a).__name__, type(b).__name__))
+            d = {a: 1, b: 2}
+            bad = []
+            if a == b or not (a != b):
+                bad.append("compare equal")
+            if len(d) != 2:
+                bad.append("collapse to one dictionary key")
+            try:
+                if len(formula({a: 1, b: 2}).atoms) != 2:
+                    bad.append("are merged by formula({a: 1, b: 2})")
+            except Exception:
+                pass
+            if bad:
+                R.violation("identity:%s:%s" % (nat.atom_name(a), nat.atom_name(b)), "two different atoms %s and %s (tables %s / %s) %s"
+                            % (nat.atom_name(a), nat.atom_name(b), getattr(a, "table", "?"), getattr(b, "table", "?"), ", ".join(bad)),
+                            {"a": nat.atom_name(a), "b": nat.atom_name(b)})
+        for a in seen:
+            R.ok(1)
+            if not (a == a) or a != a or hash(a) != hash(a):
+                R.violation("identity:self:%s" % nat.atom_name(a), "an atom does not equal itself", {"a": nat.atom_name(a)})
+    finally:
+        core.PRIVATE_TABLES.pop(name, None)
+    return R.done()
+
+
 def task_replay(tier, seed, arg):
     prop = (arg or {}).get("key", "C02:").split(":")[0]
     fn = globals().get("task_" + prop)
